@@ -231,13 +231,20 @@ class System(simple.SimpleSystem):
             raise ValueError(op)
 
     def canon(self, live):
+        """every attribute of the table (columns, column list, index, the lazily built caches and anything a change to the
+        library may add), so that histories are never merged while a cache differs"""
         t = live["t"]
-        cache = t._index_cache
-        cc = t._count_cache
-        return simple.digest((t._index, list(t._col_names),
-                              [(c, [repr(x) for x in t._data[c]]) for c in sorted(t._data)],
-                              None if cache is None else sorted(cache.items(), key=repr),
-                              None if cc is None else sorted(cc.items(), key=repr)))
+        extra = []
+        for k in sorted(t.__dict__):
+            if k in ("rows", "cols", "_data", "_col_names"):
+                continue
+            v = t.__dict__[k]
+            if isinstance(v, dict):
+                v = sorted(((repr(a), repr(b)) for a, b in v.items()))
+            elif hasattr(v, "tolist"):
+                v = [str(x) for x in v.tolist()]
+            extra.append((k, repr(v)))
+        return simple.digest((list(t._col_names), [(c, [repr(x) for x in t._data[c]]) for c in sorted(t._data)], extra))
 
     def op_str(self, op):
         k = op[0]
